@@ -115,6 +115,13 @@ def check_case(ctx, case, V=None):
                 ctx.violation('e2e-maxlag', 'maxlag=%r resolves to %r, end-to-end model %r' % (
                     case['kw']['maxlag'], ml_impl, None if mml is None else float(mml)), case)
                 return
+            from fractions import Fraction
+            if mml is not None and ml_impl is not None and Fraction(float(ml_impl)) != mml and \
+                    np.any(np.abs(d - float(ml_impl)) <= 1e-9 * max(1.0, abs(float(ml_impl)))):
+                # the model resolves a relative maxlag in exact arithmetic (0.3 * 10 < 3), the implementation in
+                # floats (0.3 * 10.0 == 3.0): with a distance at that value the clipped sets differ by rounding only
+                ctx.count('pipeline_e2e_skipped_maxlag_rounding')
+                return
             if not all_close(medges, edges.tolist(), rel=1e-9):
                 ctx.violation('e2e-edges', 'lag edges %r, end-to-end model %r' % (
                     edges.tolist(), [float(x) for x in medges]), case)
